@@ -39,7 +39,7 @@ def main():
         if fn is None and spec["q"] in ("checksig", "interp_tx_total"):
             from mirsym import queries_checksig as QCS
             fn = getattr(QCS, "q_" + spec["q"])
-        if fn is None and spec["q"] in ("ecdsa_glue", "recover_glue"):
+        if fn is None and spec["q"] in ("ecdsa_glue", "recover_glue", "pubkey_derivation"):
             from mirsym import queries_sign as QSG
             fn = getattr(QSG, "q_" + spec["q"])
         if fn is None and spec["q"] in ("bip32", "bip32_path"):
